@@ -81,6 +81,12 @@ func ToValue(x interface{}) octosql.Value {
 	case "null":
 		return octosql.NewNull()
 	case "int":
+		if b, ok := m["big"]; ok {
+			if b == "min64" {
+				return octosql.NewInt(math.MinInt64)
+			}
+			return octosql.NewInt(math.MaxInt64)
+		}
 		if hi, ok := m["hi"]; ok { // two-limb: hi*2^32 + lo
 			return octosql.NewInt(int64(num(hi))*(1<<32) + int64(num(m["lo"])))
 		}
@@ -105,6 +111,9 @@ func ToValue(x interface{}) octosql.Value {
 	case "str":
 		return octosql.NewString(Str(m["s"].(string)))
 	case "time":
+		if z, ok := m["z"]; ok { // same instant, another zone
+			return octosql.NewTime(TimeOf(Int(m["ts"])).In(time.FixedZone("z", Int(z)*3600)))
+		}
 		return octosql.NewTime(TimeOf(Int(m["ts"])))
 	case "dur":
 		return octosql.NewDuration(time.Duration(int64(num(m["du"]))))
@@ -151,6 +160,12 @@ func FromValue(v octosql.Value) V {
 	case octosql.TypeIDNull:
 		return V{"t": "null"}
 	case octosql.TypeIDInt:
+		if v.Int == math.MinInt64 {
+			return V{"t": "int", "big": "min64"}
+		}
+		if v.Int == math.MaxInt64 {
+			return V{"t": "int", "big": "max64"}
+		}
 		if v.Int > math.MaxInt32 || v.Int < math.MinInt32 {
 			hi := v.Int >> 32
 			lo := v.Int - hi*(1<<32)
@@ -243,14 +258,13 @@ func ToType(x interface{}) octosql.Type {
 		}
 	case "any":
 		return octosql.Any
+	case "listnone":
+		return octosql.Type{TypeID: octosql.TypeIDList}
 	case "list":
-		if s, ok := m["e"].(string); ok && s == "none" {
-			return octosql.Type{TypeID: octosql.TypeIDList}
-		}
-		e := ToType(m["e"])
+		e := ToType(m["le"])
 		return octosql.Type{TypeID: octosql.TypeIDList, List: struct{ Element *octosql.Type }{Element: &e}}
 	case "obj":
-		fs := m["f"].([]interface{})
+		fs, _ := m["f"].([]interface{})
 		fields := make([]octosql.StructField, len(fs))
 		for i := range fs {
 			p := fs[i].([]interface{})
@@ -258,14 +272,14 @@ func ToType(x interface{}) octosql.Type {
 		}
 		return octosql.Type{TypeID: octosql.TypeIDStruct, Struct: struct{ Fields []octosql.StructField }{Fields: fields}}
 	case "tuple":
-		es := m["e"].([]interface{})
+		es, _ := m["te"].([]interface{})
 		el := make([]octosql.Type, len(es))
 		for i := range es {
 			el[i] = ToType(es[i])
 		}
 		return octosql.Type{TypeID: octosql.TypeIDTuple, Tuple: struct{ Elements []octosql.Type }{Elements: el}}
 	case "union":
-		as := m["a"].([]interface{})
+		as, _ := m["a"].([]interface{})
 		al := make([]octosql.Type, len(as))
 		for i := range as {
 			al[i] = ToType(as[i])
@@ -284,9 +298,9 @@ func FromType(t octosql.Type) V {
 		return V{"k": "any"}
 	case octosql.TypeIDList:
 		if t.List.Element == nil {
-			return V{"k": "list", "e": "none"}
+			return V{"k": "listnone"}
 		}
-		return V{"k": "list", "e": FromType(*t.List.Element)}
+		return V{"k": "list", "le": FromType(*t.List.Element)}
 	case octosql.TypeIDStruct:
 		fs := make([]interface{}, len(t.Struct.Fields))
 		for i, f := range t.Struct.Fields {
@@ -298,7 +312,7 @@ func FromType(t octosql.Type) V {
 		for i, e := range t.Tuple.Elements {
 			es[i] = FromType(e)
 		}
-		return V{"k": "tuple", "e": es}
+		return V{"k": "tuple", "te": es}
 	case octosql.TypeIDUnion:
 		as := make([]interface{}, len(t.Union.Alternatives))
 		for i, a := range t.Union.Alternatives {
